@@ -593,6 +593,9 @@ Plan genWire(const std::string& prop, int tier, uint64_t batchSeed, uint64_t idx
             op.set("rsv", static_cast<int64_t>(r.below(256)));
         size_t nm = r.chance(1, 10) ? 0 : 1 + r.below(8);
         size_t total = 8;
+        // one frame in thirty is a jumbo frame: several large messages, more than 64 KiB in total
+        const bool jumbo = r.chance(1, 30);
+        const size_t frameLimit = jumbo ? 260000 : 66000;
         for (size_t k = 0; k < nm; ++k)
         {
             Item m("m");
@@ -621,12 +624,15 @@ Plan genWire(const std::string& prop, int tier, uint64_t batchSeed, uint64_t idx
                 case 2:
                     len = static_cast<int64_t>(minLenOf(kind)) + r.logRange(0, tier ? 60000 : 3000);
                     break;
+                case 3:
+                    len = jumbo ? r.range(20000, 65535) : static_cast<int64_t>(minLenOf(kind)) + r.range(0, 80);
+                    break;
                 default:
                     len = static_cast<int64_t>(minLenOf(kind)) + r.range(0, 80);
                     break;
             }
             len = std::max<int64_t>(0, len);
-            if (total + 16 + static_cast<size_t>(len) > 66000)
+            if (total + 16 + static_cast<size_t>(len) > frameLimit)
                 len = static_cast<int64_t>(minLenOf(kind));
             total += 16 + static_cast<size_t>(len);
             m.set("len", len);
@@ -646,6 +652,8 @@ Plan genWire(const std::string& prop, int tier, uint64_t batchSeed, uint64_t idx
                         const int64_t room = len - fixed;
                         m.set("ilen", r.pick<int64_t>({0, 1, room - 1, room, room + 1, room + 2, 0xFF, 0x7FFF, 0xFFFF, static_cast<int64_t>(r.below(300))}));
                         m.set("iwhich", static_cast<int64_t>(r.below(kind == wire::K_CMSTAT ? 5 : 3)));
+                        if (r.chance(1, 2))
+                            m.set("izero", r.range(1, 4));  // zero bytes right behind the length field: a wrapped length then "fits"
                         break;
                     }
                     case 2:
